@@ -790,6 +790,78 @@ func c13QueueHistory(r *ev.Run, g *rng.R, caseID string, small bool) {
 
 // ---- cancellation of swarm-level Receive (udpswarm, vswarm) ----
 
+// c13ManyParkedCancel: several receivers are parked on one idle swarm, each with its own context; they are cancelled one by one
+// (in a seeded order) and each must return its context's error promptly while the others stay parked: a receiver's
+// cancellation must not depend on another receiver getting a message or giving up.
+func c13ManyParkedCancel(r *ev.Run, g *rng.R, caseID string, which string) {
+	var recv func(ctx context.Context) error
+	var closer func()
+	switch which {
+	case "udp":
+		s, err := udpswarm.New("127.0.0.1:0")
+		if err != nil {
+			r.Inconclusive("udp listen: " + err.Error())
+			return
+		}
+		recv = func(ctx context.Context) error { return s.Receive(ctx, func(p2p.Message[udpswarm.Addr]) {}) }
+		closer = func() { s.Close() }
+	default:
+		realm := memswarm.NewRealm()
+		s := realm.NewSwarm()
+		recv = func(ctx context.Context) error { return s.Receive(ctx, func(p2p.Message[memAddr]) {}) }
+		closer = func() { s.Close() }
+	}
+	defer closer()
+	const R = 4
+	type rc struct {
+		cf   context.CancelFunc
+		done chan struct{}
+		err  error
+	}
+	rs := make([]*rc, R)
+	for i := range rs {
+		ctx, cf := context.WithCancel(context.Background())
+		x := &rc{cf: cf, done: make(chan struct{})}
+		rs[i] = x
+		go func() { c13worker(func() { x.err = recv(ctx) }); close(x.done) }()
+	}
+	time.Sleep(time.Duration(1+g.Intn(3)) * time.Millisecond) // let them park
+	r.Eval(1)
+	for _, i := range g.Perm(R) {
+		rs[i].cf()
+		select {
+		case <-rs[i].done:
+		case <-time.After(3 * time.Second):
+			// still there: parked (in the library) or just slow?
+			parked := gor.ParkedIDs("main.c13worker")
+			time.Sleep(time.Second)
+			select {
+			case <-rs[i].done:
+				r.Inconclusive("c13 many-parked: slow " + caseID)
+				return
+			default:
+			}
+			if len(parked) > 0 && len(gor.ParkedIDs("main.c13worker")) > 0 {
+				r.Violate("C13/blocked-after-cancel/"+which+"swarm/other-receivers-parked", caseID, "a Receive whose context was cancelled does not return while other receivers are parked on the same swarm", map[string]any{"receivers": R, "cancelled_index": i})
+			} else {
+				r.Inconclusive("c13 many-parked: not parked " + caseID)
+			}
+			for _, x := range rs {
+				x.cf()
+			}
+			return
+		}
+		if rs[i].err == nil || !errors.Is(rs[i].err, context.Canceled) {
+			r.Violate("C13/wrong-error-after-cancel/"+which+"swarm", caseID, fmt.Sprintf("Receive with a cancelled context returned %v instead of the context's error", rs[i].err), map[string]any{"receivers": R})
+			for _, x := range rs {
+				x.cf()
+			}
+			return
+		}
+	}
+	r.NonTrivial("many-parked-cancel/" + which)
+}
+
 func c13SwarmCancel(r *ev.Run, g *rng.R, caseID string, which string, pre bool) {
 	var recv func(ctx context.Context) error
 	var closer func()
@@ -997,6 +1069,14 @@ func runC13(r *ev.Run) {
 			caseID = fmt.Sprintf("queue-small-%d-%d", r.Batch, i)
 			if r.Want(caseID) {
 				c13QueueHistory(r, cg, caseID, true)
+			}
+		}
+	}
+	for i := 0; i < pick(r, 2, 10); i++ {
+		for _, which := range []string{"udp", "mem"} {
+			caseID := fmt.Sprintf("manyparked-%s-%d-%d", which, r.Batch, i)
+			if r.Want(caseID) {
+				c13ManyParkedCancel(r, g.Fork(), caseID, which)
 			}
 		}
 	}
